@@ -51,6 +51,30 @@ def guard_constants(P, fn):
     return sorted(out, key=str)
 
 
+TEXT_OPS = ('from_utf8', 'from_utf8_lossy', 'from_utf8_unchecked', 'from_utf8_mut', 'to_string_lossy', 'from_utf16', 'from_utf16_lossy')
+FIRST_WINS = ('entry', 'or_insert', 'or_insert_with', 'or_default', 'try_insert', 'contains_key')
+LAST_WINS = ('insert', 'extend', 'from_iter', 'collect', 'append')
+
+
+def twin_policies(P, fn):
+    """(text conversions used, duplicate-key policy of the maps it builds) for one parser"""
+    text, pol = set(), set()
+    for B in bodies_of_fn(P, fn):
+        for bb, c in B.calls():
+            n = callee_of(c)[0] or ''
+            last = n.rsplit('::', 1)[-1]
+            if last in TEXT_OPS:
+                text.add(last)
+            if 'BTreeMap' in n or 'btree_map' in n or 'btree::map' in n or 'HashMap' in n or 'hash_map' in n or 'hash::map' in n:
+                if last in FIRST_WINS:
+                    pol.add('first-wins')
+                elif last in LAST_WINS:
+                    pol.add('last-wins')
+    if 'first-wins' in pol:
+        pol = {'first-wins'}
+    return text, pol
+
+
 def _norm_value(c):
     """canonical value with block numbers and the `_borrowed` suffix of sub-parsers removed, so that twins can be compared"""
     if isinstance(c, tuple):
@@ -171,6 +195,7 @@ def run(ctx):
     # ---------------- clause 2: twins --------------------------------------------------------------
     ctx.rule('C13.2-twin-layout', 'for every common tag both parsers read the same layout', floor=22)
     ctx.rule('C13.2-twin-guards', 'for every common tag both parsers apply the same size caps and validity tests (same comparison operators and constants)', floor=22)
+    ctx.rule('C13.2-twin-policies', 'for every common tag both parsers convert bytes to text with the same strictness (from_utf8 vs from_utf8_lossy ...) and build maps with the same answer to repeated keys (last pair wins / first pair wins)', floor=15)
     ctx.rule('C13.2-twin-values', 'for every common tag: wherever the parsers store a value they compute from the bytes (a sign from a sign byte, a number from digits) both compute it with the same expression', floor=15)
     ctx.rule('C13.2-twin-variant', 'for every common tag the zero-copy parser builds the variant that to_owned maps to the owned parser\'s variant', floor=20)
     for t in sorted(set(owned) & set(borrowed)):
@@ -213,6 +238,18 @@ def run(ctx):
             else:
                 ctx.bad('C13.2-twin-values', inst, 'the two parsers compute a stored value differently: owned %s, zero-copy %s' % ([x for x in co if x not in cb], [x for x in cb if x not in co]), where,
                         key='TWIN:%s:values' % b['parser'])
+        if o['parser'] and b['parser']:
+            (to_, po), (tb_, pb) = twin_policies(P, o['parser']), twin_policies(P, b['parser'])
+            # the zero-copy Latin-1 parsers may re-read pure ASCII as UTF-8 (rule C13.2-twin-atom-text): that one extra from_utf8 is theirs
+            tb_cmp = tb_ - {'from_utf8'} if t in (100, 115) else tb_
+            if to_ != tb_cmp:
+                ctx.bad('C13.2-twin-policies', inst + ':text', 'the two parsers turn the bytes into text differently (owned %s, zero-copy %s): input one of them refuses (ill-formed UTF-8) the other accepts with replacement characters, or the other way round'
+                        % (sorted(to_) or 'none', sorted(tb_) or 'none'), where, key='TWIN:%s:text-conversion' % b['parser'])
+            elif po != pb:
+                ctx.bad('C13.2-twin-policies', inst + ':duplicate-keys', 'the two parsers resolve repeated map keys differently (owned %s, zero-copy %s): for a map with two keys that compare equal they keep different values'
+                        % (sorted(po), sorted(pb)), where, key='TWIN:%s:duplicate-key-policy' % b['parser'])
+            else:
+                ctx.ok('C13.2-twin-policies', inst, 'text conversion %s, duplicate keys %s' % (sorted(to_) or '-', sorted(po) or '-'), where)
         vo, vb = set(o['variants']), set(b['variants'])
         if vo == vb and vb:
             ctx.ok('C13.2-twin-variant', inst, 'both build %s' % sorted(vb), where)
